@@ -2,11 +2,11 @@ SPECIFICATION GSpec
 CONSTANTS
   Kinds = {"d", "ad", "r", "adc"}
   MaxLen = 2
-  FaultModes = {"ee", "ww"}
+  FaultModes = {"we", "ee"}
   Depth = 14
   MaxStarts = 2
   MaxRefused = 1
-  MaxStops = 1
+  MaxStops = 0
 CONSTRAINT Bound
 INVARIANT Emit1
 CHECK_DEADLOCK FALSE
